@@ -46,6 +46,8 @@ type HeapCtx struct {
 	arrSorts map[string]*Sort // heap array name -> sort (everything ever touched)
 	seen0    map[string]bool
 	opaque   map[string]string // opaque predicate bodies -> symbol
+	mapZero  map[string]*Term  // MV array name -> zero value of the map's element type
+	seenRep  map[string]bool
 	emit     func(t *Term) // adds an unconditional assumption
 }
 
@@ -92,6 +94,7 @@ func (h *HeapCtx) arr(st *State, name string, sort *Sort) *Term {
 	if h.arrSorts[name] == nil {
 		h.arrSorts[name] = sort
 	}
+	_ = st
 	if t, ok := st.heap[name]; ok {
 		return t
 	}
@@ -102,8 +105,61 @@ func (h *HeapCtx) arr(st *State, name string, sort *Sort) *Term {
 	if !h.seen0[name] {
 		h.seen0[name] = true
 		h.noteHavoc(c, h.d.Const("$next@0", SInt))
+		h.noteMapArr(nil, name)
 	}
 	return c
+}
+
+// noteMapArr emits the map representation invariant for the current versions (in st; entry versions if
+// st is nil) of the arrays belonging to the same map type as array `name`.
+func (h *HeapCtx) noteMapArr(st *State, name string) {
+	if h.emit == nil || len(name) < 3 {
+		return
+	}
+	pre := name[:3]
+	if pre != "MD_" && pre != "MV_" && pre != "MC_" {
+		return
+	}
+	base := name[3:]
+	get := func(n string) *Term {
+		srt := h.arrSorts[n]
+		if srt == nil {
+			return nil
+		}
+		if st != nil {
+			if t, ok := st.heap[n]; ok {
+				return t
+			}
+		}
+		if h.seen0[n] {
+			return &Term{n + "@0", srt}
+		}
+		return nil
+	}
+	dom, val, card := get("MD_"+base), get("MV_"+base), get("MC_"+base)
+	if dom == nil {
+		// the domain array is needed for the pair invariant; it will be emitted when it appears
+		if card != nil {
+			h.emit(Eq(Select(card, TNil), IntLit(0)))
+		}
+		return
+	}
+	key := "rep|" + dom.S + "|"
+	if val != nil {
+		key += val.S
+	}
+	key += "|"
+	if card != nil {
+		key += card.S
+	}
+	if h.seenRep == nil {
+		h.seenRep = map[string]bool{}
+	}
+	if h.seenRep[key] {
+		return
+	}
+	h.seenRep[key] = true
+	h.emit(h.mapRepInv(dom, val, card, h.mapZero["MV_"+base]))
 }
 
 func (h *HeapCtx) setArr(st *State, name string, t *Term) {
@@ -264,6 +320,12 @@ func (h *HeapCtx) mapArrs(mt *types.Map) mapArrs {
 	k := h.w.sortOf(h.d, mt.Key())
 	v := h.w.sortOf(h.d, mt.Elem())
 	dn, vn, cn := mapArrNames(k, v)
+	if h.mapZero == nil {
+		h.mapZero = map[string]*Term{}
+	}
+	if _, ok := h.mapZero[vn]; !ok {
+		h.mapZero[vn] = h.w.zero(h.d, mt.Elem())
+	}
 	return mapArrs{k, v, dn, vn, cn, SArray(SPtr, SArray(k, SBool)), SArray(SPtr, SArray(k, v))}
 }
 
@@ -274,31 +336,31 @@ func (h *HeapCtx) arraysOfMap(mt *types.Map, out map[string]*Sort) {
 	out[ma.card] = SArray(SPtr, SInt)
 }
 
-// mapDom returns the (Array K Bool) domain of map m (empty for nil).
+// Representation invariants of the map encoding (assumed of every array version, preserved by every
+// operation the engine emits): the nil map has an empty domain and cardinality 0, and an absent key holds
+// the zero value. They make every map read a plain select (good triggers, small terms).
+
+// mapDom returns the (Array K Bool) domain of map m.
 func (h *HeapCtx) mapDom(st *State, mt *types.Map, m *Term) *Term {
 	ma := h.mapArrs(mt)
-	d := Select(h.arr(st, ma.dom, ma.domS), m)
-	if m.S == "Nil" {
-		return ConstArray(SArray(ma.k, SBool), TFalse)
-	}
-	return Ite(IsNil(m), ConstArray(SArray(ma.k, SBool), TFalse), d)
+	return Select(h.arr(st, ma.dom, ma.domS), m)
 }
 
 func (h *HeapCtx) mapHas(st *State, mt *types.Map, m, k *Term) *Term {
 	ma := h.mapArrs(mt)
-	return And(Not(IsNil(m)), Select(Select(h.arr(st, ma.dom, ma.domS), m), k))
+	return Select(Select(h.arr(st, ma.dom, ma.domS), m), k)
 }
 
-// mapGet returns the value for key k (zero when absent).
+// mapGet returns the value for key k (zero when absent, by the representation invariant).
 func (h *HeapCtx) mapGet(st *State, mt *types.Map, m, k *Term) *Term {
 	ma := h.mapArrs(mt)
-	v := Select(Select(h.arr(st, ma.val, ma.valS), m), k)
-	return Ite(h.mapHas(st, mt, m, k), v, h.w.zero(h.d, mt.Elem()))
+	h.arr(st, ma.dom, ma.domS) // make sure the pair invariant is emitted
+	return Select(Select(h.arr(st, ma.val, ma.valS), m), k)
 }
 
 func (h *HeapCtx) mapCard(st *State, mt *types.Map, m *Term) *Term {
 	ma := h.mapArrs(mt)
-	return Ite(IsNil(m), IntLit(0), Select(h.arr(st, ma.card, SArray(SPtr, SInt)), m))
+	return Select(h.arr(st, ma.card, SArray(SPtr, SInt)), m)
 }
 
 func (h *HeapCtx) mapSet(st *State, mt *types.Map, m, k, v *Term) {
@@ -315,13 +377,32 @@ func (h *HeapCtx) mapSet(st *State, mt *types.Map, m, k, v *Term) {
 func (h *HeapCtx) mapDelete(st *State, mt *types.Map, m, k *Term) {
 	ma := h.mapArrs(mt)
 	domA := h.arr(st, ma.dom, ma.domS)
+	valA := h.arr(st, ma.val, ma.valS)
 	cardA := h.arr(st, ma.card, SArray(SPtr, SInt))
 	had := Select(Select(domA, m), k)
-	// delete on a nil map is a no-op
-	newCard := Store(cardA, m, Ite(had, Sub(Select(cardA, m), IntLit(1)), Select(cardA, m)))
-	newDom := Store(domA, m, Store(Select(domA, m), k, TFalse))
-	h.setArr(st, ma.card, Ite(IsNil(m), cardA, newCard))
-	h.setArr(st, ma.dom, Ite(IsNil(m), domA, newDom))
+	// delete on a nil map is a no-op: its domain stays empty, its (never used) value entry zero, card 0
+	h.setArr(st, ma.card, Store(cardA, m, Ite(had, Sub(Select(cardA, m), IntLit(1)), Select(cardA, m))))
+	h.setArr(st, ma.dom, Store(domA, m, Store(Select(domA, m), k, TFalse)))
+	h.setArr(st, ma.val, Store(valA, m, Store(Select(valA, m), k, h.w.zero(h.d, mt.Elem()))))
+}
+
+// mapRepInv: the representation invariant for the current versions of a map type's arrays in st.
+func (h *HeapCtx) mapRepInv(dom, val, card *Term, zero *Term) *Term {
+	mv := &Term{"rm", SPtr}
+	kv := &Term{"rk", dom.Sort.V.K}
+	var cs []*Term
+	if dom != nil {
+		cs = append(cs, Eq(Select(dom, TNil), ConstArray(dom.Sort.V, TFalse)))
+	}
+	if card != nil {
+		cs = append(cs, Eq(Select(card, TNil), IntLit(0)))
+	}
+	if dom != nil && val != nil && zero != nil {
+		cs = append(cs, Forall([]Bound{{"rm", SPtr}, {"rk", dom.Sort.V.K}},
+			Implies(Not(Select(Select(dom, mv), kv)), Eq(Select(Select(val, mv), kv), zero)),
+			[]*Term{Select(Select(val, mv), kv)}))
+	}
+	return And(cs...)
 }
 
 // mapWF is the well-formedness fact relating cardinality and domain of map m in st.
